@@ -177,7 +177,9 @@ def main(rep, tier, only):
         if nm.endswith("signal::unregister::detail::concrete_connection::~concrete_connection"):
             items = (fn.get("body") or {}).get("ch", [])
             key = "unregister::concrete_connection::~concrete_connection"
-            first = T.unwrap(u, items[0]) if items else None
+            # the unlink comes before the try block (declarations in front of it do not matter)
+            eff = [x for x in items if x.get("k") not in ("decl", "null")]
+            first = T.unwrap(u, eff[0]) if eff else None
             ok1 = first is not None and first.get("k") == "call" and T.callee_qn(u, first) == BASE + "::unlink"
             trys = [s for s in items if s.get("k") == "try"]
             ok2 = False
